@@ -399,6 +399,24 @@ class Interp:
                 if isinstance(base, dict):
                     base[l["name"]] = self.ev(n["r"], env)
                     return ()
+            if l["k"] == "Index":
+                base = self.ev(l["e"], env)
+                i_ = self.ev(l["i"], env)
+                if isinstance(base, list) and isinstance(i_, int) and not isinstance(i_, bool):
+                    if not 0 <= i_ < len(base):
+                        raise Undecided("index %d out of range in an assignment (a panic in the analysed code)" % i_)
+                    base[i_] = self.ev(n["r"], env)
+                    return ()
+                if isinstance(base, HMap) and not isinstance(i_, Opaque):
+                    dict.__setitem__(base, i_, self.ev(n["r"], env))
+                    return ()
+            if l["k"] == "Un" and l["op"] == "*":
+                tgt = l["e"]
+                while tgt["k"] in ("Ref",) or (tgt["k"] == "Un" and tgt["op"] == "*"):
+                    tgt = tgt["e"]
+                if tgt["k"] == "Path" and tgt.get("rk") == "Local":
+                    env[tgt["res"]] = self.ev(n["r"], env)
+                    return ()
             raise Undecided("assignment to %s" % render(l))
         if k == "MCall":
             return self.mcall(n, env)
